@@ -43,3 +43,8 @@ claim('C05', 'exploration',
       'Trusted: pysam/htslib, pysamiterators (its un-pairing of non co-located mates is accepted: mate number compared for co-located pairs only). No secondary/supplementary records generated.',
       'property-based testing (Hypothesis) with a library simulator and a multiset-accounting oracle; completion order owned by a deterministic pool',
       'DESIGN.md section 4, C05')
+claim('C06', 'exploration',
+      'Hypothesis-generated libraries with simulator truth (cells, packed sites on both strands, UMI neighbourhoods incl. N, PCR copies, clips) through MoleculeIterator (hamming 0/1/2, radius 0 and >0, cap, several ejection intervals): soundness of every molecule and, for hamming 0 / radius 0, equality with the truth partition; and through the command line tagger: exactly one non-duplicate fragment per molecule, RC permutation, af/TF, plus histories (re-tagging, input with preset duplicate bits and RC tags).',
+      'Trusted: pysam/htslib, pysamiterators. For hamming>0 only soundness; with a cap no idempotence (overflow depends on input order); rejection-reason strings of rejected fragments are not compared.',
+      'property-based testing (Hypothesis) with a ground-truth library simulator; metamorphic history relations (retag, preset flags)',
+      'DESIGN.md section 4, C06')
